@@ -20,7 +20,7 @@ RULE = ('random grammars (C01 generator without suppression; Comment rule in 40%
         '(grammar skeleton, input token kinds, load kind); non-trivial = model with >= 3 objects and the input contains a '
         'newline or a comment before some object')
 REQUIRED = {'objects_checked': 2000, 'models': 300, 'file_loads': 100, 'string_loads': 100, 'inputs_with_comments': 10,
-            'objects_after_newline': 200, 'locations_checked': 2000, 'crlf_layouts': 100, 'unusual_separator_layouts': 20}
+            'objects_after_newline': 200, 'locations_checked': 2000, 'crlf_layouts': 100, 'unusual_separator_layouts': 20, 'grammars_with_user_classes': 50}
 
 
 def linecol(text, off):
@@ -57,9 +57,25 @@ def _one(ctx, i, rep=None):
         ctx.count('grammars_skipped_suppression')
         return
     text = RP.pr_grammar(g)
+    if i % 2:
+        # the first rule does not start at offset 0 of the grammar text (positions in the grammar and positions in
+        # the model are different things)
+        text = '// generated grammar\n\n  ' + text
     cfg = dict(skipws=True, auto_init_attributes=True, use_regexp_group=False)
+    mmcfg = dict(cfg)
+    if i % 3 == 0:
+        # user classes for every common rule (plain classes that take the grammar attributes as keywords)
+        kinds = RP.rule_kinds(g)
+
+        def mkcls(name):
+            def __init__(self, **kw):
+                for k_, v_ in kw.items():
+                    setattr(self, k_, v_)
+            return type(name, (), {'__init__': __init__})
+        mmcfg['classes'] = [mkcls(rl.name) for rl in g.rules if kinds[rl.name] == 'common']
+        ctx.count('grammars_with_user_classes')
     try:
-        mm = P.make_mm(text, **cfg)
+        mm = P.make_mm(text, **mmcfg)
     except TextXError as e:
         ctx.violation(None, 'generated grammar rejected: %s' % str(e)[:100], {'grammar': text}, rep)
         return
